@@ -59,6 +59,8 @@ def model_op(o):
         return [OP_REMS, [], 0]
     if o[0] == OP_SPELL:
         return model_op(o[2])
+    if o[0] == OP_CTOR:
+        return list(o[:5])                    # which arguments were passed, and in which form, is the implementation's business
     return [MODEL_OP.get(o[0], o[0])] + list(o[1:])
 
 RULE = ("histories of add_edge / add_edges_from (1-3 elements, also self-conflicting) / remove_edge / remove_edges_from / "
@@ -69,7 +71,10 @@ RULE = ("histories of add_edge / add_edges_from (1-3 elements, also self-conflic
         "tuple|one-shot iterator|dict-keys, nodes=..., edge_type=...) = guarded bulk add, update(nodes=...) = no edge change, "
         "update(edges=<networkx graph>) as last op: accepted = raises with unchanged edge sets or the guarded insertion, never a "
         "contradictory graph, and after any raise the FULL snapshot (node set included) equals the pre-state; a stream with "
-        "identity-hashed label objects. Argument spellings of add_edge / add_edges_from / remove_edge / remove_edges_from after every "
+        "identity-hashed label objects. Constructor: every non-empty subset of the edge-list keyword arguments actually passed (the "
+        "others left at None), as list / dict-of-dicts / networkx graph / generator (time-series: list / graph), first argument "
+        "also positionally, contents every combination of the 2-node lists incl. self-contradicting and mutually contradicting "
+        "ones: constructed iff the model's graph is valid. Argument spellings of add_edge / add_edges_from / remove_edge / remove_edges_from after every "
         "single-op prefix: all-keyword (names from the method's signature) = exactly the positional op; EdgeType enum member, "
         "keyword+enum, (u, v, {attrs}) 3-tuples in bulk ops = EITHER rejected with the full snapshot unchanged OR exactly the "
         "guarded op with the plain string; edge_type=None must raise with the snapshot unchanged; has_edge in string / keyword / "
@@ -156,6 +161,27 @@ def ctor_ops(cls):
     return out
 
 
+def ctor_subset_ops(cls):
+    """every non-empty SUBSET of the constructor's edge-list keyword arguments (the others are not passed at all), every argument
+    kind, contents = every combination of the four 2-node lists per given argument, including lists that contradict themselves
+    ([(0,1),(1,0)] directed) and each other; plus the no-argument call and the first argument given positionally"""
+    opts = [[], [[0, 1]], [[1, 0]], [[0, 1], [1, 0]]]
+    bits = (1, 2, 4, 8) if PAG_LIKE[cls] else (1, 2)
+    # the time-series layers document "Not implemented yet for incoming graph data" of type dict / generator
+    kinds = ("list", "graph") if TS[cls] else ("list", "dict", "graph", "gen")
+    out = [[OP_CTOR, [], [], [], [], 0, "list"]]
+    for mask in range(1, 1 << len(bits)):
+        given = [b for i, b in enumerate(bits) if mask >> i & 1]
+        m = sum(given)
+        for contents in itertools.product(opts, repeat=len(given)):
+            lists = {b: c for b, c in zip(given, contents)}
+            for kind in kinds:
+                out.append([OP_CTOR, lists.get(1, []), lists.get(2, []), lists.get(4, []), lists.get(8, []), m, kind])
+            if m & 1:
+                out.append([OP_CTOR, lists.get(1, []), lists.get(2, []), lists.get(4, []), lists.get(8, []), m, "list", 1])
+    return out
+
+
 def random_op(rng, cls, n):
     ets = et_codes(cls)
 
@@ -197,6 +223,9 @@ def gen_cases(tier, rng):
         cs = ctor_ops(cls)
         for i in range(0, len(cs), 16):
             yield {"kind": "ctor", "cls": cls, "ops": cs[i:i + 16]}
+        cs = ctor_subset_ops(cls)
+        for i in range(0, len(cs), 8):
+            yield {"kind": "ctor_subset", "cls": cls, "ops": cs[i:i + 8]}
     for cls in range(5):
         al = alphabet(cls, [0, 1])
         depth = 3 if (tier == "thorough" and cls in (0, 1)) else 2
@@ -446,6 +475,11 @@ def apply_op(G, cls, nd, o):
         H = (nx.DiGraph if o[2] in (0, 3) else nx.Graph)([(nd(a), nd(b)) for a, b in o[1]])
         G.update(edges=H, edge_type=ET_NAMES[o[2]])
     elif k == OP_CTOR:
+        if len(o) > 5:
+            kw = ctor_args(cls, nd, o, "list")
+            if len(o) > 7 and o[7] and "incoming_directed_edges" in kw:      # first argument given positionally
+                return _classes()[cls](kw.pop("incoming_directed_edges"), **kw)
+            return _classes()[cls](**kw)
         return construct(cls, nd, o[1], o[2], o[3], o[4])
     return G
 
@@ -529,18 +563,27 @@ def ctor_args(cls, nd, o, argkind):
     import networkx as nx
     m = lambda es: [(nd(x), nd(y)) for x, y in es]  # noqa: E731
 
+    # extended Construct op [OP_CTOR, d, u, b, c, mask, kind]: only the keyword arguments in mask (1 directed, 2 undirected,
+    # 4 bidirected, 8 circle) are PASSED at all (the others keep their default None); kind also "gen" (a generator of pairs)
+    mask = o[5] if len(o) > 5 else 15
+    if len(o) > 6:
+        argkind = o[6]
+
     def mk(es, directed):
         es = m(es)
         if argkind == "list":
             return es
+        if argkind == "gen":
+            return (e for e in es)
         g = (nx.DiGraph if directed else nx.Graph)(es)
         if argkind == "dict":
             return nx.to_dict_of_dicts(g)
         return g
-    kw = {"incoming_directed_edges": mk(o[1], True), "incoming_undirected_edges": mk(o[2], False)}
-    if PAG_LIKE[cls]:
-        kw["incoming_bidirected_edges"] = mk(o[3], False)
-        kw["incoming_circle_edges"] = mk(o[4], True)
+    kw = {}
+    for bit, name, idx, directed in ((1, "incoming_directed_edges", 1, True), (2, "incoming_undirected_edges", 2, False),
+                                     (4, "incoming_bidirected_edges", 3, False), (8, "incoming_circle_edges", 4, True)):
+        if mask & bit and (PAG_LIKE[cls] or bit < 4):
+            kw[name] = mk(o[idx], directed)
     return kw
 
 
